@@ -153,13 +153,11 @@ func firstStop(s string) int {
 }
 
 func c48(r *vkit.Run) {
-	r.SetRule("a full in-process BFE with 4 harness filters at each of 6 request-level callback points; each request carries a verdict script; ALL verdict vectors of length 1-4 over the verdicts each point handles (request points: GoOn/Finish/Redirect/Response/Close, Forward and RequestFinish: GoOn/Finish, ReadResponse: GoOn/Finish/Redirect) are enumerated one point at a time (GET), plus seeded multi-point scripts and POST/HEAD variants; oracle = per-point call log must be 0..k in order (k = first non-GoOn) + client bytes + backend arrivals + liveness probe on the same connection. Non-trivial = script has a non-GoOn verdict; distinct = script")
+	r.SetRule("a full in-process BFE with 4 harness filters at each of 6 request-level callback points; each request carries a verdict script; ALL verdict vectors of length 1-4 over the verdicts each point handles (request points: GoOn/Finish/Redirect/Response/Close, Forward and RequestFinish: GoOn/Finish, ReadResponse: GoOn/Finish/Redirect) are enumerated one point at a time (GET), plus seeded multi-point scripts and POST/HEAD variants; oracle = per-point call log must be 0..k in order (k = first non-GoOn) + client bytes + backend arrivals + liveness probe on the same connection. Complete-stream family (HTTP/1.1): every verdict letter GoOn/Finish/Redirect/Response/Close, consulted by the framework at that point or not, as first and as last filter at each of the 6 request-level points x backend body {empty, small, 192 KiB, chunked} x {GET, POST, HEAD}, a request-phase Response verdict followed by Redirect/Finish at HandleReadResponse/HandleRequestFinish, seeded multi-point scripts; connection-level points HandleAccept/HandleHandshake/HandleFinish scripted by the client's source address (plain and TLS http/1.1), vectors of length 1-2 and after GoOns; the probe is pipelined behind the request in one write and asks for close, the client reads to the end of the connection and a strict response parser must find exactly <the response the verdict demands (redirect: 302, Location, the short note for GET and no body otherwise; response: the filter's status/header/body; finish: one complete reply; close: no byte)> then nothing or the probe's own response, then the end; verdicts the framework does not consult at a point are judged for order/stop only; a connection reset before one complete response (pipelined bytes unread at the server) is counted as skipped. Non-trivial = script has a non-GoOn verdict; distinct = script")
 	log := newFilterLog()
 	bs := e2e.NewBackendSet()
 	defer bs.Close()
-	be := bs.New("b1", func(x *e2e.Exchange) e2e.Action {
-		return e2e.Action{Status: 200, Body: []byte("backend id=" + x.Req.Header.Get("X-Id"))}
-	})
+	be := bs.New("b1", c48BackendAction) // 200 "backend id=<X-Id>"; stream cases (X-Bk) choose the body shape, see c48stream.go
 	srv, err := e2e.Start(&e2e.Options{HTTPS: true, TLSRule: `{"Version":"1","DefaultNextProtos":["h2","http/1.1"],"Config":{}}`, Clusters: []e2e.Cluster{{
 		Name: "c48", Hosts: []string{"c48.test"}, MaxIdleConnsPerHost: 8,
 		SubClusters: []e2e.SubCluster{{Name: "sub1", Weight: 100, Backends: []e2e.Backend{{Name: "b1", Addr: be.Addr, Port: be.Port, Weight: 10}}}},
@@ -174,8 +172,22 @@ func c48(r *vkit.Run) {
 		return
 	}
 
+	cs := newConnScripts()
+	if err := installConnFilters(srv, cs); err != nil {
+		r.Inconclusive("AddFilter (connection-level): " + err.Error())
+		return
+	}
+
 	var cases []*c48Case
 	if r.Replay != "" {
+		var ws struct {
+			Case c48SCase `json:"case"`
+		}
+		if err := r.LoadReplay(&ws); err == nil && (ws.Case.Kind == "stream" || ws.Case.Kind == "conn") {
+			r.SetMinDistinct(0)
+			c48Stream(r, srv, log, cs, bs, &ws.Case)
+			return
+		}
 		var w struct {
 			Case c48Case `json:"case"`
 		}
@@ -371,6 +383,9 @@ func c48(r *vkit.Run) {
 		if r.WantSample() && nontrivial && i%97 == 0 {
 			r.Sample(w)
 		}
+	}
+	if r.Replay == "" {
+		c48Stream(r, srv, log, cs, bs, nil)
 	}
 	for k, v := range e2e_panics(srv) {
 		if v != 0 {
